@@ -26,17 +26,17 @@ type ReplayRule struct {
 }
 
 type PropSpec struct {
-	ID          string            `json:"id"`
-	Level       string            `json:"level"`
-	Functions   []string          `json:"functions"`
-	Pinned      map[string]string `json:"pinned"` // obligation name (without module prefix) -> clause text that the contract must carry
-	Required    []string          `json:"required"`
-	Assumptions []string          `json:"assumptions"`
-	NotDecided  []string          `json:"not_decided"`
-	Bounded     []string          `json:"bounded"`
-	Replay      []ReplayRule      `json:"replay"`
-	Explanation string            `json:"explanation"`
-	MinObligations int            `json:"min_obligations"`
+	ID             string            `json:"id"`
+	Level          string            `json:"level"`
+	Functions      []string          `json:"functions"`
+	Pinned         map[string]string `json:"pinned"` // obligation name (without module prefix) -> clause text that the contract must carry
+	Required       []string          `json:"required"`
+	Assumptions    []string          `json:"assumptions"`
+	NotDecided     []string          `json:"not_decided"`
+	Bounded        []string          `json:"bounded"`
+	Replay         []ReplayRule      `json:"replay"`
+	Explanation    string            `json:"explanation"`
+	MinObligations int               `json:"min_obligations"`
 	// Scope: regular expressions over the short obligation name; when non-empty only matching
 	// obligations belong to this property (the others belong to other properties' checks)
 	Scope        []string `json:"scope"`
@@ -46,11 +46,11 @@ type PropSpec struct {
 	// ThoroughFunctions: verified only in the thorough tier (too slow for the quick tier)
 	ThoroughFunctions []string `json:"thorough_functions"`
 	// Conformance: bounded tests of assumed library behaviour run in the thorough tier (binaries in <verif>/bin)
-	Conformance []string `json:"conformance"`
+	Conformance  []string          `json:"conformance"`
 	Sweep        []string          `json:"sweep"`
 	SweepExclude map[string]string `json:"sweep_exclude"`
-	PinnedFile   string   `json:"pinned_file"`   // JSON map obligation -> clause text (in spec/)
-	PinnedLabels []string `json:"pinned_labels"` // labels (ensures:<label>) of pinned_file that this property pins
+	PinnedFile   string            `json:"pinned_file"`   // JSON map obligation -> clause text (in spec/)
+	PinnedLabels []string          `json:"pinned_labels"` // labels (ensures:<label>) of pinned_file that this property pins
 }
 
 type Finding struct {
@@ -192,7 +192,7 @@ func (s *Session) RunCheck(ps *PropSpec, opts CheckOpts) int {
 			}
 			for _, p := range ps.Sweep {
 				if strings.HasPrefix(sk, p+".") {
-					if len(baseline) > 0 && !baseline[sk] {
+					if len(baseline) > 0 && !baseline[sk] && os.Getenv("GOVC_WRITE_SWEEP_BASELINE") == "" {
 						newFuncs[sk] = true
 						if !exportedKey(sk) {
 							notes = append(notes, "new unexported function "+sk+" is not swept on its own (covered where it is executed in place in its callers)")
@@ -476,32 +476,32 @@ func (s *Session) RunCheck(ps *PropSpec, opts CheckOpts) int {
 		trustedBase = append(trustedBase, "unmodelled callee, result havocked (assumed not to panic): "+l)
 	}
 	cov := map[string]interface{}{
-		"obligations":         nObl,
-		"discharged":          nDis,
-		"query_instances":     nInst,
-		"checker_cmd":         fmt.Sprintf("/verif/check %s %s", ps.ID, opts.Tier),
-		"trusted_base":        trustedBase,
-		"samples":             samples,
-		"functions":           fnInfo,
-		"obligation_classes":  classes,
-		"discharged_by":       solverCount,
-		"solver_time_s":       round2(solverTime),
-		"generation_time_s":   round2(genTime),
-		"load_time_s":         round2(s.LoadTime),
-		"inlined_functions":   sortedSet(inlined),
-		"not_decided":         ps.NotDecided,
-		"bounded_parts":       ps.Bounded,
-		"explanation":         ps.Explanation,
-		"contract_files":      s.ContractFiles,
-		"per_obligation_timeout_s": s.TimeoutS,
-		"scope":               ps.Scope,
+		"obligations":                  nObl,
+		"discharged":                   nDis,
+		"query_instances":              nInst,
+		"checker_cmd":                  fmt.Sprintf("/verif/check %s %s", ps.ID, opts.Tier),
+		"trusted_base":                 trustedBase,
+		"samples":                      samples,
+		"functions":                    fnInfo,
+		"obligation_classes":           classes,
+		"discharged_by":                solverCount,
+		"solver_time_s":                round2(solverTime),
+		"generation_time_s":            round2(genTime),
+		"load_time_s":                  round2(s.LoadTime),
+		"inlined_functions":            sortedSet(inlined),
+		"not_decided":                  ps.NotDecided,
+		"bounded_parts":                ps.Bounded,
+		"explanation":                  ps.Explanation,
+		"contract_files":               s.ContractFiles,
+		"per_obligation_timeout_s":     s.TimeoutS,
+		"scope":                        ps.Scope,
 		"out_of_scope_query_instances": outOfScope,
-		"pinned_clauses":      len(ps.Pinned),
-		"thorough_only_functions": ps.ThoroughFunctions,
-		"slow_obligations":    slowList(sums, float64(s.TimeoutS)*0.4),
+		"pinned_clauses":               len(ps.Pinned),
+		"thorough_only_functions":      ps.ThoroughFunctions,
+		"slow_obligations":             slowList(sums, float64(s.TimeoutS)*0.4),
 		"discharged_only_under_known_finding_exclusion": nKnown,
-		"sweep_packages":      ps.Sweep,
-		"sweep_not_covered":   ps.SweepExclude,
+		"sweep_packages":            ps.Sweep,
+		"sweep_not_covered":         ps.SweepExclude,
 		"new_functions_not_decided": notes,
 	}
 	nReach, nMaybe := 0, 0
